@@ -145,7 +145,7 @@ func (o *Object) Write(rootGoitPath string) error {
 
 	dirPath := filepath.Join(rootGoitPath, "objects", o.Hash.String()[:2])
 	filePath := filepath.Join(dirPath, o.Hash.String()[2:])
-	if f, err := os.Stat(dirPath); os.IsNotExist(err) || !f.IsDir() {
+	if f, err := os.Stat(dirPath); err != nil || !f.IsDir() {
 		if err := os.Mkdir(dirPath, os.ModePerm); err != nil {
 			return fmt.Errorf("%w: %s", ErrIOHandling, dirPath)
 		}
